@@ -12,6 +12,7 @@ def cxx_int_ok(i):
 contract(TR + "query_ast_visitor.visit_Constant", props=["C18", "C13", "C09"], replay="visit_constant_kinds",
          params=dict(self=QV, node=RefOf("ast.Constant")),
          requires=["gc_of(self) != None"],
+         modifies=["rep", "alloc"],
          raises={"ValueError": "not (field(node, 'value').kind == K_STR or field(node, 'value').kind == K_INT or "
                                "field(node, 'value').kind == K_FLOAT or field(node, 'value').kind == K_BOOL) or "
                                "(field(node, 'value').kind == K_STR and not cxx_string_ok(field(node, 'value').s))"},
